@@ -148,9 +148,6 @@ Proof.
 Qed.
 
 (* ---------- well-formed cell lists and the repair of split halves ---------- *)
-Definition char_cells (cp w cs : Z) (a : vattr) : list cell :=
-  if w =? 0 then [] else mkCell cp w cs a :: (if w =? 2 then [mkCell (-1) 0 cs a] else []).
-
 Inductive WFc : list cell -> Prop :=
   | WFc_nil : WFc []
   | WFc_narrow c l : c_w c <> 0 -> c_w c <> 2 -> WFc l -> WFc (c :: l)
@@ -377,5 +374,5 @@ Proof.
   rewrite Hs. rewrite IH by (cbn; lia).
   destruct n.
   - f_equal.
-  - cbn. f_equal. lia.
+  - unfold set_pos; cbn. f_equal. lia.
 Qed.
